@@ -8,8 +8,7 @@
   One theorem (`imageF_spec`) covers both uses; `imageF_spec_image` (`vmap = None`) and
   `imageF_spec_preimage` (`umap = None`) are its two instances.
 -/
-import DDProofs.Quantify
-import DDProofs.Compose
+import DDProofs.SubstWrappers
 open Std
 
 namespace DD
@@ -486,5 +485,148 @@ theorem imageF_spec (umap vmap : Option (List (Int × Int))) (Q : List Nat) (fa 
               exact hqd m3.tbl hs3.ext a
             · simp only [ha, Bool.false_eq_true, if_false]
               exact hpd m3.tbl hs3.ext a
+
+/-! ### the two uses -/
+
+/-- `_image` as called by `image` (`umap = rename`, `vmap = None`), ANY variable order, adjacent
+pairs or not: the result is the quantified conjunction read through the renaming (renaming AFTER
+quantification: a level `z` of the conjunction that is not quantified appears as `ren z`).
+The only requirement is that every level that is not quantified is sent to a declared level. -/
+theorem imageF_spec_image (rn : List (Int × Int)) (Q : List Nat) (fa : Bool) (ren : Nat → Nat)
+    (f : Nat) (m : Mgr) (u v : Int) (cache : HashMap (Int × Int) Int)
+    (hI : Inv m) (hoff : m.lastLen = none) (hu : m.tbl.Mem u) (hv : m.tbl.Mem v)
+    (hren : ∀ z, z < m.nvars → z ∉ Q →
+      (rn.lookup (z : Int)).getD (z : Int) = (ren z : Int) ∧ ren z < m.nvars)
+    (hmemo : IMemo fa Q ren id m.tbl cache)
+    (hfuel : 2 * m.nvars + 1 ≤ f + m.tbl.levelOf u + m.tbl.levelOf v) :
+    ∃ r c' m', imageF (some rn) none Q fa f u v cache m = (.ok (r, c'), m') ∧
+      Inv m' ∧ Ext m.tbl m'.tbl ∧ Frame m m' ∧ IMemo fa Q ren id m'.tbl c' ∧ m'.tbl.Mem r ∧
+      ∀ a, den m'.tbl r a = true ↔
+        qsem fa Q (fun b => den m.tbl u b && den m.tbl v b) (fun z => a (ren z)) := by
+  have hW := hI.wf.toWF
+  have hP : ImgOK (some rn) none Q ren id (fun j => j < m.nvars) m.nvars :=
+    ⟨hren, fun j hj => ⟨rfl, hj⟩, rfl, fun _ _ _ _ h => h⟩
+  obtain ⟨r, c', m', he, hs, hm, hp⟩ := imageF_spec (some rn) none Q fa ren id _ m.nvars hP
+    f m u v cache hI hoff rfl hu hv (fun j hj => hj.lt_nvars hW) hmemo hfuel
+  refine ⟨r, c', m', he, hs.inv, hs.ext, hs.frame, hm, hp.mr, ?_⟩
+  intro a
+  rw [hp.den a, imgSem_ext hs.ext hW hu hv]
+  exact Iff.rfl
+
+/-- `_image` as called by `preimage` (`umap = None`, `vmap = rename`): when the renaming is
+strictly increasing on (a set `S` containing) the support of `v`, sends it to declared levels
+and does not move the terminal's level, the result is `Q qvars. u ∧ rename(v)` (renaming of `v`
+BEFORE the conjunction: level `j` of `v` is read at `rV j`). -/
+theorem imageF_spec_preimage (rn : List (Int × Int)) (Q : List Nat) (fa : Bool) (rV : Nat → Nat)
+    (S : Nat → Prop) (f : Nat) (m : Mgr) (u v : Int) (cache : HashMap (Int × Int) Int)
+    (hI : Inv m) (hoff : m.lastLen = none) (hu : m.tbl.Mem u) (hv : m.tbl.Mem v)
+    (hS : ∀ j, InSupp m.tbl v j → S j)
+    (hval : ∀ j, S j → (rn.lookup (j : Int)).getD (j : Int) = (rV j : Int) ∧ rV j < m.nvars)
+    (hterm : (rn.lookup (m.nvars : Int)).getD (m.nvars : Int) = (m.nvars : Int))
+    (hmono : ∀ j j', S j → S j' → j < j' → rV j < rV j')
+    (hmemo : IMemo fa Q id rV m.tbl cache)
+    (hfuel : 2 * m.nvars + 1 ≤ f + m.tbl.levelOf u + m.tbl.levelOf v) :
+    ∃ r c' m', imageF none (some rn) Q fa f u v cache m = (.ok (r, c'), m') ∧
+      Inv m' ∧ Ext m.tbl m'.tbl ∧ Frame m m' ∧ IMemo fa Q id rV m'.tbl c' ∧ m'.tbl.Mem r ∧
+      ∀ a, den m'.tbl r a = true ↔
+        qsem fa Q (fun b => den m.tbl u b && den m.tbl v (fun j => b (rV j))) a := by
+  have hW := hI.wf.toWF
+  have hP : ImgOK none (some rn) Q id rV S m.nvars :=
+    ⟨fun z hz _ => ⟨rfl, hz⟩, hval, hterm, hmono⟩
+  obtain ⟨r, c', m', he, hs, hm, hp⟩ := imageF_spec none (some rn) Q fa id rV S m.nvars hP
+    f m u v cache hI hoff rfl hu hv hS hmemo hfuel
+  refine ⟨r, c', m', he, hs.inv, hs.ext, hs.frame, hm, hp.mr, ?_⟩
+  intro a
+  rw [hp.den a, imgSem_ext hs.ext hW hu hv]
+  exact Iff.rfl
+
+/-! ### the level renaming of a dictionary of level pairs -/
+
+/-- `rn.get(z, z)` as a map on levels (a negative target is read as 0; the theorems below
+assume the targets are levels) -/
+def renOf (rn : List (Int × Int)) (z : Nat) : Nat :=
+  ((rn.lookup (z : Int)).getD (z : Int)).toNat
+
+theorem renOf_eq (rn : List (Int × Int)) (hval : ∀ p, p ∈ rn → 0 ≤ p.2) (z : Nat) :
+    (rn.lookup (z : Int)).getD (z : Int) = (renOf rn z : Int) := by
+  unfold renOf
+  cases hl : rn.lookup (z : Int) with
+  | none => simp
+  | some x =>
+    have := hval _ (lookup_some_mem _ _ _ hl)
+    simp only [Option.getD_some]
+    omega
+
+theorem renOf_lt (rn : List (Int × Int)) (N : Nat) (hval : ∀ p, p ∈ rn → p.2 < (N : Int))
+    (z : Nat) (hz : z < N) : renOf rn z < N := by
+  unfold renOf
+  cases hl : rn.lookup (z : Int) with
+  | none => simp; exact hz
+  | some x =>
+    have := hval _ (lookup_some_mem _ _ _ hl)
+    simp only [Option.getD_some]
+    omega
+
+/-- a level that is no key is not moved -/
+theorem renOf_not_key (rn : List (Int × Int)) (z : Nat) (h : ∀ p, p ∈ rn → p.1 ≠ (z : Int)) :
+    renOf rn z = z := by
+  unfold renOf
+  cases hl : rn.lookup (z : Int) with
+  | none => simp
+  | some x => exact absurd rfl (h _ (lookup_some_mem _ _ _ hl))
+
+/-- THE ARITHMETIC OF "NEIGHBOURS": a renaming whose pairs are adjacent (`|k - rn k| = 1`) and
+injective, none of whose targets lies in `S`, is strictly increasing on `S`. -/
+theorem renOf_mono (rn : List (Int × Int)) (S : Nat → Prop)
+    (hval : ∀ p, p ∈ rn → 0 ≤ p.2)
+    (hadj : ∀ p, p ∈ rn → (p.1 - p.2).natAbs = 1)
+    (hinj : ∀ p p', p ∈ rn → p' ∈ rn → p.2 = p'.2 → p.1 = p'.1)
+    (hdis : ∀ p, p ∈ rn → ∀ j, S j → p.2 ≠ (j : Int)) :
+    ∀ j j', S j → S j' → j < j' → renOf rn j < renOf rn j' := by
+  intro j j' hj hj' hlt
+  have e1 := renOf_eq rn hval j
+  have e2 := renOf_eq rn hval j'
+  cases h1 : rn.lookup (j : Int) with
+  | none =>
+    rw [h1] at e1
+    simp only [Option.getD_none] at e1
+    cases h2 : rn.lookup (j' : Int) with
+    | none =>
+      rw [h2] at e2
+      simp only [Option.getD_none] at e2
+      omega
+    | some x' =>
+      rw [h2] at e2
+      simp only [Option.getD_some] at e2
+      have m2 := lookup_some_mem _ _ _ h2
+      have a2 := hadj _ m2
+      have d2 := hdis _ m2 j hj
+      simp only at a2 d2
+      omega
+  | some x =>
+    rw [h1] at e1
+    simp only [Option.getD_some] at e1
+    have m1 := lookup_some_mem _ _ _ h1
+    have a1 := hadj _ m1
+    have d1 := hdis _ m1 j' hj'
+    simp only at a1 d1
+    cases h2 : rn.lookup (j' : Int) with
+    | none =>
+      rw [h2] at e2
+      simp only [Option.getD_none] at e2
+      omega
+    | some x' =>
+      rw [h2] at e2
+      simp only [Option.getD_some] at e2
+      have m2 := lookup_some_mem _ _ _ h2
+      have a2 := hadj _ m2
+      have d2 := hdis _ m2 j hj
+      have i12 := hinj _ _ m1 m2
+      simp only at a2 d2 i12
+      have : x ≠ x' := by
+        intro h
+        have := i12 h
+        omega
+      omega
 
 end DD
